@@ -34,6 +34,15 @@ import (
 // declarations, declarations on an ancestor, attribute order, white space and comments between child
 // elements) and with the key information conformant producers embed (certificate, X509IssuerSerial +
 // certificate, none).  A consumer that interoperates is prefix-agnostic: MustAccept whatever the form.
+// Family "opt" (round 4): direction ref2pkg; the independent producer writes or leaves out the OPTIONAL children of
+// EncryptionMethod - ds:DigestMethod (absent = SHA-1), xenc11:MGF (absent = MGF1 with SHA-1), xenc:OAEPparams (absent
+// = present and empty = the empty label), xenc:KeySize - in every way that encodes the parameters the key was
+// wrapped with.  MustAccept; left open (DontCare): a non-empty OAEP label, xmlenc11 rsa-oaep with an MGF1 digest
+// other than the DigestMethod's.
+// Family "keyval" (round 4): "every key of the right size" - the VALUE of the symmetric key is built from the
+// description the vector carries (kparts: 8-octet parts that are equal / zero / all-ones / weak or semi-weak DES
+// keys, parity, repeating patterns).  Direct key: the three directions; RSA key transport: the session key of the
+// independent producer, direction ref2pkg.
 
 type c10Case struct {
 	Fam   string `json:"fam"` // base | lex
@@ -42,23 +51,43 @@ type c10Case struct {
 	Dm    string `json:"dm"`
 	Plen  int    `json:"plen"`
 	Nonce string `json:"nonce"`
-	Lex   xeLex  `json:"lex"` // lexical form of the independent producer's element
-	Ki    string `json:"ki"`  // X509Data class the independent producer embeds in the EncryptedKey
+	Lex   xeLex  `json:"lex"`  // lexical form of the independent producer's element
+	Ki    string `json:"ki"`   // X509Data class the independent producer embeds in the EncryptedKey
+	Mgfd  string `json:"mgfd"` // digest of the MGF1 the key is wrapped with
+	Opt   c10Opt `json:"opt"`  // optional children of EncryptionMethod the independent producer writes
+	Kv    string `json:"kv"`   // value class of the symmetric key
 }
+
+type c10Opt struct {
+	Dm    string `json:"dm"`    // named | absent
+	Mgf   string `json:"mgf"`   // named | absent
+	Oaepp string `json:"oaepp"` // absent | empty | label
+	Ks    bool   `json:"ks"`
+}
+
+func (o c10Opt) name() string {
+	ks := 0
+	if o.Ks {
+		ks = 1
+	}
+	return fmt.Sprintf("dm=%s:mgf=%s:oaepp=%s:ks=%d", o.Dm, o.Mgf, o.Oaepp, ks)
+}
+
 type c10Out struct {
 	K      string `json:"k"`
 	Why    string `json:"why"`
 	Nondet bool   `json:"nondet"`
 }
 type c10Vec struct {
-	Model   string    `json:"model"`
-	Case    c10Case   `json:"case"`
-	Class   string    `json:"class"`
-	Req     string    `json:"req"`
-	Cvlen   int       `json:"cvlen"`
-	Closure bool      `json:"closure"`
-	Refel   xeEl      `json:"refel"`
-	X509    []c11X509 `json:"x509"` // X509Data of the levels of refel (data level, EncryptedKey)
+	Model   string      `json:"model"`
+	Case    c10Case     `json:"case"`
+	Class   string      `json:"class"`
+	Req     string      `json:"req"`
+	Cvlen   int         `json:"cvlen"`
+	Closure bool        `json:"closure"`
+	Refel   xeEl        `json:"refel"`
+	X509    []c11X509   `json:"x509"`   // X509Data of the levels of refel (data level, EncryptedKey)
+	Kparts  []xeKeyPart `json:"kparts"` // the value of the symmetric key, part by part
 	Pred    struct {
 		Self    c10Out `json:"self"`
 		Pkg2ref c10Out `json:"pkg2ref"`
@@ -80,6 +109,9 @@ func (v *c10Vec) pred(dir string) c10Out {
 }
 
 func c10KtName(c c10Case) string {
+	if c.Kt == "rsa-oaep11" && c.Mgfd != "" && c.Mgfd != c.Dm {
+		return c.Kt + "-" + c.Dm + "-mgf1" + c.Mgfd
+	}
 	if c.Kt == "rsa-oaep-mgf1p" || c.Kt == "rsa-oaep11" {
 		return c.Kt + "-" + c.Dm
 	}
@@ -188,12 +220,33 @@ func pkgDecrypt(k any, el *etree.Element) (out []byte, err error, panicked bool,
 // c10Execute runs one case in the three directions.  refel is the symbolic reference
 // element (nil: use the reference writer directly, for lengths beyond the model's range).
 func c10Execute(c c10Case, refel *xeEl, rng *rand.Rand, plen int) *c10Run {
+	return c10ExecuteKey(c, refel, rng, plen, nil, nil)
+}
+
+// c10SymKey returns the symmetric key of a case: random octets, or the value the description kparts gives.
+func c10SymKey(alg *refBlockAlg, kparts []xeKeyPart, rng *rand.Rand) []byte {
+	if len(kparts) == 0 {
+		k := make([]byte, alg.Key) // "a key of the right size": the size the W3C identifier prescribes
+		rng.Read(k)
+		return k
+	}
+	k := xeKeyFromParts(kparts, rng)
+	if err := xeKeyPartsOK(kparts, k); err != nil || len(k) != alg.Key {
+		panic(fmt.Sprintf("harness: key value does not fit its description (%d octets for %s): %v", len(k), alg.Name, err))
+	}
+	return k
+}
+
+// c10ExecuteKey is c10Execute with the symmetric key the description kparts gives, or (replay) the octets stored.
+func c10ExecuteKey(c c10Case, refel *xeEl, rng *rand.Rand, plen int, kparts []xeKeyPart, stored []byte) *c10Run {
 	r := &c10Run{Obs: map[string]c10Obs{}, PlainLen: plen}
 	alg := refBlockByName(c.Bc)
 	r.P = make([]byte, plen)
 	rng.Read(r.P)
-	r.K = make([]byte, alg.Key) // "a key of the right size": the size the W3C identifier prescribes
-	rng.Read(r.K)
+	r.K = c10SymKey(alg, kparts, rng)
+	if stored != nil {
+		r.K = append([]byte{}, stored...)
+	}
 	var encKey, decKey any = r.K, r.K
 	if c.Kt != "direct" {
 		encKey, decKey = key("sp").Cert, key("sp").RSA()
@@ -276,8 +329,7 @@ func c10ExecuteLex(v *c10Vec, rng *rand.Rand) *c10Run {
 	alg := refBlockByName(c.Bc)
 	r.P = make([]byte, c.Plen)
 	rng.Read(r.P)
-	r.K = make([]byte, alg.Key)
-	rng.Read(r.K)
+	r.K = c10SymKey(alg, v.Kparts, rng)
 	var decKey any = r.K
 	if c.Kt != "direct" {
 		decKey = key("sp").RSA()
@@ -550,8 +602,10 @@ func c10LenKey(failing map[int]bool, all []int) []string {
 func TestC10(t *testing.T) {
 	rep := NewReport("C10")
 	defer rep.Finish(t)
-	rep.Rule = "every terminal state of spec/XmlEnc.tla family C10 (block cipher x key transport/digest x plaintext length 0..4 blocks+1 x supplied/generated nonce) is run with random contents and keys in three directions: xmlenc.Decrypt(xmlenc.Encrypt(p)), reference.Decrypt(xmlenc.Encrypt(p)), xmlenc.Decrypt(reference.Encrypt(p)) where the reference is a standard-library-only implementation of the W3C identifiers (validated against the W3C sample ciphertexts in xmlenc/corpus); plus random longer plaintexts and the key-transport layer on its own; family lex (direction reference -> package): for every key transport x {aes128-cbc, aes128-gcm} (thorough: four ciphers, two lengths) the reference element is written in every enumerated lexical form - the three namespaces bound to the package's prefixes / other prefixes / the default namespace, uniformly and mixed; declarations on the element that needs them / on every element / on the element handed to Decrypt / on an enclosing element; attributes in either order; white space and comments between child elements - and with the key information conformant producers embed (certificate, X509IssuerSerial + certificate, none); each text is read back by the reference before the package is asked; non-trivial = every (case, direction), all MustAccept"
+	rep.Rule = "every terminal state of spec/XmlEnc.tla family C10 (block cipher x key transport/digest x plaintext length 0..4 blocks+1 x supplied/generated nonce) is run with random contents and keys in three directions: xmlenc.Decrypt(xmlenc.Encrypt(p)), reference.Decrypt(xmlenc.Encrypt(p)), xmlenc.Decrypt(reference.Encrypt(p)) where the reference is a standard-library-only implementation of the W3C identifiers (validated against the W3C sample ciphertexts in xmlenc/corpus); plus random longer plaintexts and the key-transport layer on its own; family lex (direction reference -> package): for every key transport x {aes128-cbc, aes128-gcm} (thorough: four ciphers, two lengths) the reference element is written in every enumerated lexical form - the three namespaces bound to the package's prefixes / other prefixes / the default namespace, uniformly and mixed; declarations on the element that needs them / on every element / on the element handed to Decrypt / on an enclosing element; attributes in either order; white space and comments between child elements - and with the key information conformant producers embed (certificate, X509IssuerSerial + certificate, none); each text is read back by the reference before the package is asked; family opt (direction reference -> package): for every key transport and digest the package offers (incl. xmlenc11 rsa-oaep with SHA-1) the reference writes or leaves out the optional children of EncryptionMethod in every way that encodes the parameters it wrapped the key with - ds:DigestMethod (absent = SHA-1), xenc11:MGF (absent = MGF1 with SHA-1), xenc:OAEPparams (absent = present and empty), xenc:KeySize - in the package's lexical form and with other prefixes; family keyval: for every block cipher the symmetric key takes every value class of table KeyParts (3DES: K1=K2, K2=K3, K1=K3, K1=K2=K3, all-zero, all-ones, one repeated octet, weak / semi-weak DES keys, a semi-weak pair, odd / even parity; AES: all-zero, all-ones, one repeated octet, 8- and 16-octet periods), built from the part-by-part description in the vector, as a direct key in the three directions and as the session key of the reference wrapped with rsa-oaep-mgf1p; non-trivial = every (case, direction) but the DontCare cases of family opt (non-empty OAEP label, xmlenc11 rsa-oaep with an MGF1 digest other than the DigestMethod's), all MustAccept"
 	rep.Assume("a producer's choice of namespace prefixes, place of namespace declarations, attribute order, white space and comments between child elements does not change the element tree (XML namespaces, XML-Encryption schema): 'interoperates' is required in every such form; only the enumerated forms are exercised (54 quick, 192 thorough, of 864)")
+	rep.Assume("every child of EncryptionMethod is optional (XML-Enc 1.1 schema) and has a default: leaving out ds:DigestMethod means SHA-1, leaving out xenc11:MGF means MGF1 with SHA-1, leaving out xenc:OAEPparams or writing it empty means the empty label, xenc:KeySize repeats what the identifier implies - all of these are encodings of the same parameters and 'interoperates' is required for each; a non-empty OAEP label and xmlenc11 rsa-oaep with an MGF1 digest other than the DigestMethod's are outside the quantifier (DontCare, compared with the model)")
+	rep.Assume("'every key of the right size': the W3C identifiers put no condition on a key but its size, so every value class is MustAccept; the classes enumerated are those of table KeyParts, contents of the random parts are drawn per vector")
 	rep.Assume("the reference implementation in harness/xmlenc_helpers.go is the independent implementation of the statement: MGF1-SHA-1 for rsa-oaep-mgf1p, xenc11:MGF (default MGF1-SHA-1) for xmlenc11 rsa-oaep, W3C digest identifiers; it is checked against crypto/rsa and the W3C merlin-xmlenc-five samples on every run")
 	lines := loadLines(t, "vectors.ndjson")
 	if len(lines) == 0 {
@@ -570,13 +624,18 @@ func TestC10(t *testing.T) {
 			rep.Break("bad vector: %v", err)
 			return
 		}
-		if v.Class != "MustAccept" || v.Req != "plaintext" {
-			rep.Break("unexpected class %q in a C10 vector", v.Class)
+		if (v.Class != "MustAccept" && !(v.Class == "DontCare" && v.Case.Fam == "opt")) || v.Req != "plaintext" {
+			rep.Break("unexpected class %q in a C10 vector of family %s", v.Class, v.Case.Fam)
 			return
 		}
 		ck := fmt.Sprintf("%s/%s/%s/%d", v.Case.Bc, c10KtName(v.Case), v.Case.Nonce, v.Case.Plen)
-		if v.Case.Fam == "lex" {
+		switch v.Case.Fam {
+		case "lex":
 			ck = "lex/" + ck + "/" + v.Case.Ki + "/" + v.Case.Lex.name()
+		case "opt":
+			ck = "opt/" + ck + "/" + v.Case.Opt.name() + "/" + v.Case.Lex.name()
+		case "keyval":
+			ck = "keyval/" + ck + "/" + v.Case.Kv
 		}
 		if first, ok := byCase[ck]; ok {
 			first.alt = append(first.alt, v)
@@ -601,18 +660,49 @@ func TestC10(t *testing.T) {
 
 	// family "lex" is run and judged on its own (below): the block-cipher / key-transport layers are judged on
 	// the package's own lexical form first
-	var lexVecs []*c10Vec
+	var lexVecs, optVecs, kvVecs []*c10Vec
 	{
 		var base []*c10Vec
 		for _, v := range vecs {
-			if v.Case.Fam == "lex" {
+			switch v.Case.Fam {
+			case "lex":
 				lexVecs = append(lexVecs, v)
-			} else {
+			case "opt":
+				optVecs = append(optVecs, v)
+			case "keyval":
+				kvVecs = append(kvVecs, v)
+			default:
 				base = append(base, v)
 			}
 		}
 		vecs = base
 	}
+	sort.SliceStable(optVecs, func(i, j int) bool {
+		a, b := optVecs[i].Case, optVecs[j].Case
+		if c10KtName(a) != c10KtName(b) {
+			return c10KtName(a) < c10KtName(b)
+		}
+		if a.Opt.name() != b.Opt.name() {
+			return a.Opt.name() < b.Opt.name()
+		}
+		if a.Lex.name() != b.Lex.name() { // the package's own form first
+			return a.Lex.isPkg() || (!b.Lex.isPkg() && a.Lex.name() < b.Lex.name())
+		}
+		return a.Bc < b.Bc
+	})
+	sort.SliceStable(kvVecs, func(i, j int) bool {
+		a, b := kvVecs[i].Case, kvVecs[j].Case
+		if a.Bc != b.Bc {
+			return a.Bc < b.Bc
+		}
+		if a.Kv != b.Kv {
+			return a.Kv < b.Kv
+		}
+		if a.Kt != b.Kt {
+			return a.Kt < b.Kt
+		}
+		return a.Plen < b.Plen
+	})
 	sort.SliceStable(lexVecs, func(i, j int) bool {
 		a, b := lexVecs[i].Case, lexVecs[j].Case
 		if c10KtName(a) != c10KtName(b) {
@@ -923,6 +1013,130 @@ func TestC10(t *testing.T) {
 		rep.Violation(k, fmt.Sprintf("the package does not decrypt the independent implementation's ciphertext (%s with %s, %d-octet plaintext) when the element is written in the lexical form %s with key information %s (the same ciphertext in the package's own form is decrypted): %s %s",
 			c.Bc, c10KtName(c), c.Plen, c.Lex.name(), c.Ki, o.K, o.Detail), r.replay("lex", c, "ref2pkg"))
 	}
+	// ---- family "opt": the optional children of EncryptionMethod, direction ref2pkg
+	agrees := func(v *c10Vec, d string, o c10Obs) bool {
+		for _, m := range v.models() {
+			if q := m.pred(d); q.K == o.K || (q.Nondet && (o.K == "error" || o.K == "wrongtext")) {
+				modelHit[m.Model]++
+				return true
+			}
+		}
+		return false
+	}
+	optRuns := make([]*c10Run, len(optVecs))
+	parallel(len(optVecs), func(i int) {
+		c := optVecs[i].Case
+		optRuns[i] = c10ExecuteLex(optVecs[i], newRand(fmt.Sprintf("c10/opt/%s/%s/%s/%s", c.Bc, c10KtName(c), c.Opt.name(), c.Lex.name())))
+	})
+	optKey := func(c c10Case) string { return fmt.Sprintf("C10:optional:kt=%s:%s", c10KtName(c), c.Opt.name()) }
+	optPkgFail := map[string]bool{} // fails in the package's own lexical form: the finding is the case's, whatever the form
+	for i, v := range optVecs {
+		if r := optRuns[i]; r.Fault == "" && v.Case.Lex.isPkg() && v.Class == "MustAccept" && r.Obs["ref2pkg"].K != "plaintext" {
+			optPkgFail[optKey(v.Case)] = true
+		}
+	}
+	optFail := 0
+	for i, v := range optVecs {
+		c, r := v.Case, optRuns[i]
+		if r.Fault != "" {
+			rep.Break("family opt, %s %s %s %s: %s\n%s", c.Bc, c10KtName(c), c.Opt.name(), c.Lex.name(), r.Fault, r.RefXML)
+			return
+		}
+		id := fmt.Sprintf("opt/%s/%s/%s/%s", c.Bc, c10KtName(c), c.Opt.name(), c.Lex.name())
+		rep.Eval(v.Class, id)
+		rep.Trace(1)
+		o := r.Obs["ref2pkg"]
+		ok := agrees(v, "ref2pkg", o)
+		if ok {
+			agree++
+		} else {
+			disagree++
+		}
+		if i%97 == 0 {
+			rep.Sample(map[string]any{"case": c, "class": v.Class, "predicted": v.Pred.Ref2pkg, "real": o, "reference_xml": r.RefXML})
+		}
+		if v.Class == "DontCare" {
+			if !ok {
+				rep.DriftCase("C10:optional:"+id, fmt.Sprintf("model predicted %s (%s), real code: %s %s", v.Pred.Ref2pkg.K, v.Pred.Ref2pkg.Why, o.K, o.Detail), c)
+			}
+			continue
+		}
+		if o.K == "plaintext" {
+			continue
+		}
+		optFail++
+		// only what neither layer explains with every part written out
+		if ktFail[c10KtName(c)]["ref2pkg"] || directFail[cell{c.Bc, "ref2pkg", "supplied"}][c.Plen] {
+			continue
+		}
+		k := optKey(c)
+		if !optPkgFail[k] {
+			k += ":" + c.Lex.name()
+		}
+		rep.Violation(k, fmt.Sprintf("the package does not decrypt the independent implementation's ciphertext (%s with %s, %d-octet plaintext) when the producer writes the optional parts of EncryptionMethod as: DigestMethod %s, xenc11:MGF %s, OAEPparams %s, KeySize %v (each left-out part has the W3C default as its value; lexical form %s): %s %s",
+			c.Bc, c10KtName(c), c.Plen, c.Opt.Dm, c.Opt.Mgf, c.Opt.Oaepp, c.Opt.Ks, c.Lex.name(), o.K, o.Detail), r.replay("lex", c, "ref2pkg"))
+	}
+	rep.Extra["optional_part_cases"] = len(optVecs)
+	rep.Extra["optional_part_cases_not_decrypted"] = optFail
+
+	// ---- family "keyval": the value of the symmetric key
+	kvRuns := make([]*c10Run, len(kvVecs))
+	parallel(len(kvVecs), func(i int) {
+		v := kvVecs[i]
+		c := v.Case
+		rng := newRand(fmt.Sprintf("c10/keyval/%s/%s/%s/%d", c.Bc, c10KtName(c), c.Kv, c.Plen))
+		if c.Kt == "direct" {
+			kvRuns[i] = c10ExecuteKey(c, &v.Refel, rng, c.Plen, v.Kparts, nil)
+		} else {
+			kvRuns[i] = c10ExecuteLex(v, rng)
+		}
+	})
+	kvClasses, kvFail := map[string]bool{}, 0
+	for i, v := range kvVecs {
+		c, r := v.Case, kvRuns[i]
+		if r.Fault != "" {
+			rep.Break("family keyval, %s %s key %s: %s\n%s", c.Bc, c10KtName(c), c.Kv, r.Fault, r.RefXML)
+			return
+		}
+		kvClasses[c.Bc+"/"+c.Kv] = true
+		dirs := c10Dirs
+		if c.Kt != "direct" {
+			dirs = []string{"ref2pkg"}
+		}
+		for _, d := range dirs {
+			rep.Eval("MustAccept", fmt.Sprintf("keyval/%s/%s/%s/%d/%s", c.Bc, c10KtName(c), c.Kv, c.Plen, d))
+			rep.Trace(1)
+			o := r.Obs[d]
+			if agrees(v, d, o) {
+				agree++
+			} else {
+				disagree++
+			}
+			if o.K == "plaintext" {
+				continue
+			}
+			kvFail++
+			// only what the same cipher with a random key (family base), or the key transport, does not explain
+			if directFail[cell{c.Bc, d, "supplied"}][c.Plen] || (c.Kt != "direct" && ktFail[c10KtName(c)][d]) {
+				continue
+			}
+			k := fmt.Sprintf("C10:alg=%s:key=%s:dir=%s", c.Bc, c.Kv, d)
+			what := fmt.Sprintf("%s, direct %d-octet key of value class %s (%x), %d-octet plaintext", c.Bc, len(r.K), c.Kv, r.K, r.PlainLen)
+			if c.Kt != "direct" {
+				k = fmt.Sprintf("C10:alg=%s:kt=%s:key=%s:dir=%s", c.Bc, c10KtName(c), c.Kv, d)
+				what = fmt.Sprintf("%s, %d-octet session key of value class %s (%x) wrapped with %s, %d-octet plaintext", c.Bc, len(r.K), c.Kv, r.K, c10KtName(c), r.PlainLen)
+			}
+			rp := r.replay("keyval", c, d)
+			rp["kparts"] = v.Kparts
+			rep.Violation(k, c10Clause(d, what+" - every key of the right size must round-trip", o), rp)
+		}
+		if i%41 == 0 {
+			rep.Sample(map[string]any{"case": c, "key": fmt.Sprintf("%x", r.K), "key_parts": v.Kparts, "predicted": v.Pred, "real": r.Obs})
+		}
+	}
+	rep.Extra["key_value_classes"] = len(kvClasses)
+	rep.Extra["key_value_cases"] = len(kvVecs)
+	rep.Extra["key_value_evaluations_not_decrypted"] = kvFail
 	rep.Extra["lexical_forms"] = len(lexForms)
 	rep.Extra["lexical_cases"] = len(lexVecs)
 	rep.Extra["lexical_cases_not_decrypted"] = lexFail
@@ -970,6 +1184,24 @@ func init() {
 			t.Fatal(err)
 		}
 		switch r.Kind {
+		case "keyval":
+			// the stored key and plaintext: the three directions again with that key value
+			k, _ := base64.StdEncoding.DecodeString(r.K)
+			var kp struct {
+				Kparts []xeKeyPart `json:"kparts"`
+			}
+			json.Unmarshal(raw, &kp)
+			if r.Case.Kt != "direct" {
+				break // direction ref2pkg with a wrapped key: the stored reference element, as kind lex
+			}
+			if err := xeKeyPartsOK(kp.Kparts, k); err != nil {
+				t.Fatalf("stored key does not fit its description: %v", err)
+			}
+			run := c10ExecuteKey(r.Case, nil, newRand("replay"), r.Plen, nil, k)
+			o := run.Obs[r.Dir]
+			return o.K != "plaintext", o.K + " " + o.Detail
+		}
+		switch r.Kind {
 		case "corpus":
 			for _, s := range c10Samples() {
 				if s.File == r.File {
@@ -992,7 +1224,7 @@ func init() {
 		case "kt":
 			o := c10RunKt(r.Case, r.KeyLen, newRand("replay"))
 			return o.Obs[r.Dir].K != "plaintext", o.Obs[r.Dir].K + " " + o.Obs[r.Dir].Detail
-		case "lex":
+		case "lex", "keyval":
 			// the stored reference element itself, in its lexical form
 			p, _ := base64.StdEncoding.DecodeString(r.P)
 			k, _ := base64.StdEncoding.DecodeString(r.K)
